@@ -1,6 +1,7 @@
 package main
 
 import (
+	"go/token"
 	"fmt"
 	"go/types"
 	"sort"
@@ -268,9 +269,12 @@ func (e *Engine) checkMapRange(r *Report, fn *ssa.Function, rg *ssa.Range, ord i
 				bad, badPos = "early return inside a map iteration (which element is seen first is random)", e.InstrPos(in)
 			case *ssa.BinOp:
 				if isFloat(x.Type()) {
-					// float accumulation in map order: handled by R3 exemption only for the reviewed function
-					if e.FnKey(rootFn(fn)) != "(x/crosschain/types.BridgeValidators).PowerDiff" {
-						bad, badPos = "floating-point accumulation in map order", e.InstrPos(in)
+					// float accumulation in map order is order-independent only while every partial sum is exact: an ADD
+					// of the running total and an integer-valued addend (a conversion from an integer type, possibly
+					// through math.Abs). Anything else (a division or product inside the loop makes the addends
+					// fractional, and float addition is not associative) depends on the iteration order.
+					if !(x.Op == token.ADD && (integerValuedFloat(x.X) || integerValuedFloat(x.Y))) {
+						bad, badPos = "floating-point arithmetic in map order whose operands are not integer-valued (the rounded sum depends on the iteration order)", e.InstrPos(in)
 					}
 				}
 			}
@@ -422,3 +426,32 @@ func onlyLogged(v ssa.Value, depth int) bool {
 
 // processStateExempt: package-level variables that consensus-reachable code may write, each with its reason.
 var processStateExempt = map[string]string{}
+
+
+// integerValuedFloat: float64(<integer>) possibly through math.Abs / negation.
+func integerValuedFloat(v ssa.Value) bool {
+	for i := 0; i < 4; i++ {
+		switch x := v.(type) {
+		case *ssa.Convert:
+			if b, ok := x.X.Type().Underlying().(*types.Basic); ok && b.Info()&types.IsInteger != 0 {
+				return true
+			}
+			return false
+		case *ssa.Call:
+			if callName(x) == "Abs" && len(x.Common().Args) == 1 {
+				v = x.Common().Args[0]
+				continue
+			}
+			return false
+		case *ssa.UnOp:
+			if x.Op == token.SUB {
+				v = x.X
+				continue
+			}
+			return false
+		default:
+			return false
+		}
+	}
+	return false
+}
